@@ -1,4 +1,5 @@
 pub mod canon;
+pub mod debugparse;
 pub mod doc;
 pub mod dsl;
 pub mod scenario;
@@ -16,6 +17,7 @@ pub fn exec_case(case: &Value) -> Value {
         "scenario" => scenario::exec(case),
         "xpath" | "xpath_pair" => props::c18::exec(case),
         "num_cmp" => props::c04::exec_num_cmp(case),
+        "parse_cond" | "parse_match" => props::parse::exec(case),
         _ => serde_json::json!({ "error": format!("unknown op {op}") }),
     }
 }
@@ -26,6 +28,8 @@ pub fn gen_cases(prop: &str, tier: &str, seed: u64, out: &mut dyn FnMut(Value)) 
         "C03" => props::c03::gen(tier, seed, out),
         "C18" => props::c18::gen(tier, seed, out),
         "C04" => props::c04::gen(tier, seed, out),
+        "C02" => props::c02::gen(tier, seed, out),
+        "C16" => props::c16::gen(tier, seed, out),
         _ => return Err(format!("no generator for {prop}")),
     }
     Ok(())
